@@ -247,3 +247,15 @@ def _returned_unchanged(fi, call):
             if got == names:
                 return True
     return False
+
+
+_FLIP = {"Gt": "Lt", "Lt": "Gt", "GtE": "LtE", "LtE": "GtE", "Eq": "Eq", "NotEq": "NotEq"}
+
+
+def against_const(e, const):
+    """Normalise a comparison event to `value OP const`: returns (OP, value AV) or None."""
+    if e.right.has_const() and e.right.const == const and not (e.left.has_const() and e.left.const == const):
+        return e.op, e.left
+    if e.left.has_const() and e.left.const == const:
+        return _FLIP.get(e.op, e.op), e.right
+    return None
